@@ -26,9 +26,12 @@ def fresh_process_state():
     from clikit.ui.components.exception_trace import ExceptionTrace
     from clikit.ui.style.border_style import BorderStyle
 
-    for a in ("_none", "_ascii", "_solid"):
-        if getattr(BorderStyle, a, None) is not None:
-            setattr(BorderStyle, a, None)
+    from clikit.ui.style.table_style import TableStyle
+
+    for cls in (BorderStyle, TableStyle):  # cached style objects held in class attributes
+        for a, v in list(vars(cls).items()):
+            if isinstance(v, (BorderStyle, TableStyle)):
+                setattr(cls, a, None)
     cache = getattr(ExceptionTrace, "_FRAME_SNIPPET_CACHE", None)
     if isinstance(cache, dict):
         cache.clear()
